@@ -21,6 +21,7 @@ RULE = (
     "integer exponents) x scalar arguments as Python float / 0-d / (1,) array. Non-trivial = a boundary value "
     "occurs or the vector length is 1. Distinct = SHA-1 of the case."
 )
+RULE += ' Also closed ramps (C=0) and entering flows that are all tiny but positive.'
 BUDGET = {"quick": {"examples": 2500, "shards": 4}, "thorough": {"fuzz_runs": 3000, "examples": 30000, "shards": 16}}
 PRIMS = ("nodes.get_upstream_flow", "nodes.get_upstream_speed", "nodes.get_downstream_density", "links.get_flow",
          "links.step_density", "links.step_speed", "links.Veq", "links.controlled_Veq", "origins.step_queue",
